@@ -105,12 +105,12 @@ type c12Context struct {
 	mom *c12Momentum
 }
 
-func (c *c12Context) MomentumStore() store.Momentum         { return c.mom }
-func (c *c12Context) Address() *types.Address               { return c.acc.Address() }
-func (c *c12Context) GetChainPlasma() (*big.Int, error)     { return c.acc.GetChainPlasma() }
-func (c *c12Context) AddChainPlasma(p uint64) error         { return c.acc.AddChainPlasma(p) }
-func (c *c12Context) IsAcceleratorSporkEnforced() bool      { return false }
-func (c *c12Context) IsHtlcSporkEnforced() bool             { return false }
+func (c *c12Context) MomentumStore() store.Momentum           { return c.mom }
+func (c *c12Context) Address() *types.Address                 { return c.acc.Address() }
+func (c *c12Context) GetChainPlasma() (*big.Int, error)       { return c.acc.GetChainPlasma() }
+func (c *c12Context) AddChainPlasma(p uint64) error           { return c.acc.AddChainPlasma(p) }
+func (c *c12Context) IsAcceleratorSporkEnforced() bool        { return false }
+func (c *c12Context) IsHtlcSporkEnforced() bool               { return false }
 func (c *c12Context) IsBridgeAndLiquiditySporkEnforced() bool { return false }
 
 func c12Env() (*c12Context, *big.Int, *big.Int, *big.Int) {
